@@ -38,7 +38,7 @@ CLAIMED.update({
             "Assumed: library contracts of regexp (per pattern literal: capture groups of the two modifier patterns, basename/dirname replacement), strings.Replace/Split/Join; MatchString on literal patterns is interpreted by the SMT theory of regular expressions; modifiers outside the documented grammar (e.g. '%s/a/b/') are outside the step contract. the path function of another out-port called from a SetOut pattern is an uninterpreted function of (function value, task) assumed free of side effects; capture-group axioms re.ext.group / re.join.group for the two literals of port discovery; NewOutPort/InitOutPort etc. are executed inline. Placeholder-like text inside inserted values is expanded again (known findings F5 for commands, F11 for SetOut patterns).",
             "3/C15"),
     "C20": ("Proof that mergeStringAuditInfoMaps returns the union, that extractAuditInfosByID lists the root, is keyed by record ID and is closed under Upstream (hence lists every node of the tree), and that sortAuditInfosByStartTime returns a permutation of the records (every record listed, nothing else, none twice) with a comparison function that orders by start time then ID.",
-            "Assumed: sort.SliceStable permutes in place and orders by the given less function; rendering through text/template and executing the generated Bash script are outside this technique (not applicable clauses). The tie-collapse defect F7 was repaired (fix: commit) and is recorded as fixed.",
+            "Assumed: sort.SliceStable permutes in place and orders by the given less function; the straight-line glue of auditInfoToHTML/TeX/Bash (load, extract, sort, hand the list to the template inside a report struct passed by value) is not under contract: struct values are outside the engine's subset (tried; the attempt is described in DESIGN 8.7); rendering through text/template and executing the generated Bash script are outside this technique (not applicable clauses). The tie-collapse defect F7 was repaired (fix: commit) and is recorded as fixed.",
             "3/C20"),
 })
 
@@ -55,13 +55,13 @@ CLAIMED.update({
     "C08": ("Proof, with select treated as demonic choice and for every number of tasks and every completion order, of the loop invariant of Process.Run: the queue of started tasks is the suffix of the received sequence in arrival order, only the oldest task's Done channel is waited for, new tasks are appended at the tail, and the k-th item on every non-streaming out-port is the output of the k-th received task; Done channels are unbuffered; sends append at the end of each remote channel.",
             "Assumed: per-sender FIFO of Go channels (for the fan-in sentence); the single-receiver prophecy sequence of the task channel.",
             "3/C08"),
-    "C16": ("Proof that BaseProcess.Ready returns only if every in-, out-, parameter-in- and parameter-out-port is connected, that readyToRun is true only if every process of the run set answered Ready, that runProcs starts a process (go or driver) only after that; that upstreamProcsForProc returns a set keyed by process name that contains every direct upstream (file and parameter edges), is closed under upstream and contains only processes with a downstream witness inside the set (hence, for acyclic graphs, exactly the transitive upstream closure); that RunToProcs hands runProcs exactly the union of the targets and their closures; wiring operations keep ready <=> connected.",
+    "C16": ("Proof that BaseProcess.Ready returns only if every in-, out-, parameter-in- and parameter-out-port is connected, that readyToRun is true only if every process of the run set answered Ready, that runProcs starts a process (go or driver) only after that; that upstreamProcsForProc returns a set keyed by process name that contains every direct upstream (file and parameter edges), is closed under upstream and contains only processes with a downstream witness inside the set (hence, for acyclic graphs, exactly the transitive upstream closure); that RunToProcs hands runProcs exactly the union of the targets and their closures, RunTo selects exactly the processes registered under the given names and RunToRegex exactly the registered processes whose name matches one of the patterns (Go's regexp as an uninterpreted relation); wiring operations keep ready <=> connected.",
             "Assumed: process names identify processes (AddProc refuses duplicates); port maps of a process are not replaced after construction; interface dispatch of WorkflowProcess follows the interface contracts. Termination of the recursive closure computation is not proved in general (it needs an acyclic wiring); its necessary condition 'never recurses with the process it was called for' is an obligation. Defects F3, F9 and F12 were repaired (fix: commits).",
             "3/C16"),
     "C17": ("Proof of the sequential FIFO mechanism: producer ({os:}) and consumer ({i:} of a streaming IP) placeholders expand to the same path.fifo string; in Process.Run an existing FIFO is refused (Fail) before CreateFifo, the FIFO is created and the IP sent before the producing task is started, streaming outputs are never forwarded a second time; NewTask propagates the stream flag; streaming outputs are exempt from existence checks and renames; CreateFifo creates no regular file.",
             "NOT decided here: that the consumer receives exactly the producer's bytes (kernel pipe semantics, two OS processes), which of the two concurrent tasks finishes first (audit link), termination of a re-run.",
             "3/C17"),
-    "C18": ("Proof that NewTask drains the sub-stream channel of every joined in-port until it is closed and stores exactly the received sequence (whole sub-stream, once, arrival order), that formatCommand replaces the joined placeholder by the members' paths, each ../-prefixed unless absolute, joined by the separator in order, and that a joined port receives one carrier per task (createTasks).",
+    "C18": ("Proof that NewTask drains the sub-stream channel of every joined in-port until it is closed and stores exactly the received sequence (whole sub-stream, once, arrival order), that formatCommand replaces the joined placeholder by the members' paths, each ../-prefixed unless absolute, joined by the separator in order, and that a joined port receives one carrier per task (createTasks); that StreamToSubStream.Run sends exactly one carrier IP whose sub-stream is its own in-port and takes nothing out of that in-port itself.",
             "Assumed: single receiver of the sub-stream channel; the parts of a placeholder body contain no braces or bars (hypothesis of the separator clause of initPortsFromCmdPattern); capture-group axiom re.join.group for the join pattern literal; audit Upstream entries of the members: C10.",
             "3/C18"),
     "C10": ("Proof that writeAuditLogs builds one record per task (id, process name, command, parameters, tags, timing), links every input's own record (looked up by path, sub-stream members included) under the input's path as Upstream, attaches that one record to every output IP and writes it next to every non-streaming output; sortedness/merging helpers of the audit tree.",
